@@ -281,3 +281,117 @@ def rule_term_kernels(ctx: Ctx, which: Optional[List[str]] = None, rule: str = "
             return None
 
         _run(ctx, rule, "PolyhedralTermList.evaluate", "evaluate: a fully assigned term is violated iff its residual constant is strictly negative (boundary satisfied)", k_evaluate_full)
+
+
+# ---------------------------------------------------------------------------
+# Tactic 4 (substitution along a chain of context rows): Farkas certificate under sign assumptions
+# ---------------------------------------------------------------------------
+def _chain_scenario(prog: Program, depth: int, signs: Dict[str, int]):
+    """term  t*x0 <= c ; rows  a_k*x_k + b_k*x_{k+1} <= c_k  (k < depth) ; last row  g*x_depth + e*i <= c_g.
+    Every coefficient is a symbol whose sign is fixed by `signs`."""
+    ta = TermAlg(prog)
+    ta.signs = {("sym", k): v for k, v in signs.items()}
+    xs = [Key("x%d" % k) for k in range(depth + 1)]
+    i = Key("i")
+    T = Rec(PT, {"variables": DictV({xs[0]: sym("t")}), "constant": sym("c")})
+    rows = []
+    for k in range(depth):
+        rows.append(Rec(PT, {"variables": DictV({xs[k]: sym("a%d" % k), xs[k + 1]: sym("b%d" % k)}), "constant": sym("c%d" % k)}))
+    rows.append(Rec(PT, {"variables": DictV({xs[depth]: sym("g"), i: sym("e")}), "constant": sym("cg")}))
+    return ta, T, rows, xs, i
+
+
+def _describe(depth: int, signs: Dict[str, int]) -> str:
+    sg = lambda n: "%s%s" % (n, ">0" if signs[n] > 0 else "<0")  # noqa: E731
+    rows = ["%s*x%d + %s*x%d <= c%d" % (sg("a%d" % k), k, sg("b%d" % k), k + 1, k) for k in range(depth)]
+    rows.append("%s*x%d + %s*i <= cg" % (sg("g"), depth, sg("e")))
+    return "term %s*x0 <= c, context {%s}, eliminating x0..x%d" % (sg("t"), "; ".join(rows), depth)
+
+
+def rule_tactic4_certificate(ctx: Ctx, rule: str = "tactic4-certificate", max_depth: int = 2) -> None:
+    """C01/C02/C04: whatever _tactic_4 returns when refining must be implied-from-above: the input term is a
+    non-negative combination of the returned term and the context rows it used (Farkas).  Decided on chains of
+    context rows with symbolic coefficients, for every assignment of signs to the coefficients: the multipliers are
+    monomials in the coefficients, so their signs are determined."""
+    from itertools import product
+
+    prog = ctx.prog
+    key = "PolyhedralTermList._tactic_4"
+    fi = prog.func(key)
+    n_ret = 0
+    n_runs = 0
+    for depth in range(0, max_depth + 1):
+        names = ["t"] + [s_ for k in range(depth) for s_ in ("a%d" % k, "b%d" % k)] + ["g", "e"]
+        bad: List[str] = []
+        undec: List[str] = []
+        returned = 0
+        for combo in product([1, -1], repeat=len(names)):
+            signs = dict(zip(names, combo))
+            ta, T, rows, xs, i = _chain_scenario(prog, depth, signs)
+            n_runs += 1
+            try:
+                context = ta.construct("PolyhedralTermList", [ListV(list(rows))], {})
+                res = ta.call(fi, [T, context, ListV(list(xs)), True, ListV([])])
+            except Raised as r:
+                if r.cls != "ValueError":
+                    bad.append("%s: raises %s" % (_describe(depth, signs), r.cls))
+                continue
+            except (Undecidable, AnalysisError) as ex:
+                undec.append("%s: %s" % (_describe(depth, signs), ex))
+                continue
+            R = res.items[0] if isinstance(res, TupV) and res.items else res
+            if not isinstance(R, Rec):
+                continue  # the tactic declined
+            returned += 1
+            rc = coefs(R)
+            left = [v for v in rc if v != "i"]
+            if left:
+                bad.append("%s: the returned term still mentions %s" % (_describe(depth, signs), sorted(left)))
+                continue
+            if "i" not in rc:
+                undec.append("%s: the returned term has no variable left" % _describe(depth, signs))
+                continue
+            # multipliers: x0: t = l0*a0 ; x_{k+1}: 0 = l_k*b_k + l_{k+1}*a_{k+1} ; i: 0 = mu*r_i + l_last*e
+            lam = []
+            cur = sym("t")
+            for k in range(depth):
+                lk = cur / sym("a%d" % k)
+                lam.append(lk)
+                cur = num(0) - lk * sym("b%d" % k)
+            ll = cur / sym("g")
+            lam.append(ll)
+            mu = (num(0) - ll * sym("e")) / rc["i"]
+            # T = mu*R + sum lam_k*row_k  on the variable i:  0 = mu*r_i + ll*e   (definition of mu)
+            from .ratnf import sign_under
+
+            sg = [sign_under(l_, ta.signs) for l_ in lam] + [sign_under(mu, ta.signs)]
+            if any(s_ is None for s_ in sg):
+                undec.append("%s: multiplier sign not determined" % _describe(depth, signs))
+                continue
+            resid = sym("c") - (mu * R.f["constant"] + sum((l_ * r_.f["constant"] for l_, r_ in zip(lam, rows)), num(0)))
+            if any(s_ < 0 for s_ in sg[:-1]) or sg[-1] <= 0:
+                which = [("row %d" % k) for k, s_ in enumerate(sg[:-1]) if s_ < 0] + (["the returned term"] if sg[-1] <= 0 else [])
+                bad.append(
+                    "%s: returns %s, which with the context does not imply the term (the combination that yields the term needs a negative multiple of %s: the row bounds the substituted variable from the wrong side)"
+                    % (_describe(depth, signs), _show_term(R), ", ".join(which))
+                )
+                continue
+            if not resid.is_zero():
+                rs = sign_under(resid, ta.signs)
+                if rs is None or rs < 0:
+                    undec.append("%s: constant of the returned term %s not matched" % (_describe(depth, signs), R.f["constant"].show()))
+                    continue
+        n_ret += returned
+        construct = "_tactic_4 (refine): the returned term and the %d context row(s) used imply the input term, for every sign pattern" % (depth + 1)
+        if bad:
+            ctx.violation(rule, key, construct, "%d of %d returning sign patterns are unsound; first: %s" % (len(bad), returned, bad[0]), where=fi.where)
+        elif undec:
+            ctx.cannot_decide(rule, key, construct, undec[0])
+        else:
+            ctx.ok(rule, key, construct + " (%d returning patterns of %d)" % (returned, 2 ** len(names)))
+    ctx.floor("tactic-4 returning sign patterns", n_ret, 10)
+
+
+def _show_term(t: Rec) -> str:
+    c = coefs(t)
+    return " + ".join("(%s)*%s" % (v.show(), k) for k, v in sorted(c.items())) + " <= " + t.f["constant"].show()
